@@ -494,7 +494,7 @@ fn equality(rep: &Reporter) -> EqStats {
         evaluations: 0,
         equal_pairs: 0,
     };
-    let mut report = |key: &str, what: String, case: serde_json::Value| {
+    let report = |key: &str, what: String, case: serde_json::Value| {
         rep.violation(Violation {
             key: key.into(),
             what: what.chars().take(900).collect(),
